@@ -268,6 +268,9 @@ def build(tier, seed):
         "Allocate / Deallocate operators are records (name, wires, hyperparameters = {state, restored})"]
     plan.dropped = ["docstrings, annotations, exception messages"]
     plan.unverified = ["the resolved circuit gives the same results as a fresh wire per allocation (simulator semantics)",
+                       "resolve_dynamic_wires after the call of _new_ops (mapping of the measurements, use-after-deallocation check, tape.copy); "
+                       "only the set-up part (manager built from the given registers, empty wire_map / deallocated set) is under contract",
+                       "the CONTENT of the operator sequence emitted by _new_ops (which mapped operators, in which order)",
                        "`restored=True` is trusted as the user's promise",
                        "programs that deallocate a dynamic wire that is not live (KeyError from wire_map.pop: malformed input, not characterised)",
                        "use of a dynamic wire after deallocation is only checked as 'AllocationError may be raised'"]
